@@ -224,8 +224,27 @@ def run(idx, rep, tier):
     rep.count("attribute-exists", proved=n_reads, nontrivial=1)
     # ---- 5. case coverage: the index forms an exit of __getitem__ is reached for, whether the forms are told apart by a `match`
     # statement or by isinstance chains (`rows, cols = ids; if isinstance(cols, int): ...`)
-    forms, fall = getitem_forms(idx, gi)
-    if forms is None:
+    # primary reading: execute the body on abstract index values (sa/formexec.py) -- whatever the layout (one match, isinstance chains,
+    # a normalisation stage followed by a dispatch on the components)
+    from sa.formexec import run_form
+    ids_name = gi.params[1] if len(gi.params) > 1 else None
+    b_ = ("slice", "array")
+    required = {"int": ["int"], "slice-or-array": list(b_), "(b,int)": [(x, "int") for x in b_], "(int,b)": [("int", x) for x in b_],
+                "(slices,slices)": [(x, y) for x in b_ for y in b_], "(list,list)": [("list", "list")]}
+    outcomes = {k: [run_form(gi.node, ids_name, v) for v in vs] for k, vs in required.items()} if ids_name else {}
+    fall_x = run_form(gi.node, ids_name, "other") if ids_name else None
+    if outcomes and all(o is not None for os_ in outcomes.values() for o in os_) and fall_x is not None:
+        missing = [k for k, os_ in outcomes.items() if not all(o == "exit" for o in os_)]
+        okx = not missing and fall_x == "raise"
+        rep.decide(okx, "case-coverage", "LinearOperator.__getitem__", f"executed on {sum(len(v) for v in required.values())} abstract index forms: every required form reaches an exit" if okx else
+                   (f"executed on abstract index forms: no exit is reached for {missing}" if missing else "an index that is none of the supported forms does not raise"),
+                   detail="" if okx else "arms", locs=[idx.loc(gi.module, gi.node)])
+        forms, fall = "executed", True
+    else:
+        forms, fall = getitem_forms(idx, gi)
+    if forms == "executed":
+        pass
+    elif forms is None:
         rep.undecided("case-coverage", "LinearOperator.__getitem__", "the index forms are not told apart by class patterns or isinstance tests")
     else:
         need = {
